@@ -54,6 +54,9 @@ def main(argv):
         res = engine.exec_case(pid, case)
         print({k: v for k, v in res.items() if k not in ("states",)})
         return 0
+    if cmd == "digests":
+        from dst import selftest
+        return selftest.digests_cmd(argv[1:])
     if cmd == "selftest-determinism":
         from dst import selftest
         return selftest.determinism(argv[1:])
